@@ -149,11 +149,17 @@ def score_block(case):
                 Ag = np.array(Ag, dtype=float, copy=True) if Ag is y else Ag
                 if not isinstance(Ag, np.ndarray) or Ag.dtype != float:
                     continue
-                g(P.copy(), Ag)
+                g(P.copy(), Ag, return_grad=True)
                 Ag *= 4.0
                 Ag += Ag.T * 0.25
                 n_eval += 1
                 got = float(g(P.copy(), Ag))
+                _, G_used = g(P.copy(), Ag, return_grad=True)
+                _, G_fresh = factory()(P.copy(), np.array(Ag, copy=True), return_grad=True)
+                if np.shape(G_used) != np.shape(G_fresh) or not np.allclose(G_used, G_fresh, rtol=1e-9, atol=1e-12 * max(1.0, float(np.abs(G_fresh).max()))):
+                    v.append(violation("gradient_depends_on_what_the_object_saw_before", {"target": label, "P": P, "used_instance": G_used, "fresh_instance": G_fresh,
+                                                                                        "history": "evaluate with gradient; edit the affinity array in place; evaluate with gradient"},
+                                       target=label, dist=dist, mode=mode, K=K, n=n, via="in_place_edit_grad"))
                 exp2, slack2 = ref.ref_score_slack(P, np.array(Ag), dist, mode)
                 if abs(got - exp2) > ref.tol(dist, exp2, slack2, scale):
                     v.append(violation("score_depends_on_what_the_object_saw_before", {"target": label, "P": P, "got": got, "expected": exp2,
